@@ -190,6 +190,7 @@ impl Driver {
 		};
 		let nslots = match self.waiters {
 			Waiters::Clones(k) => k,
+			Waiters::PollThenClone => 2,
 			_ => 1,
 		};
 		self.tickets.lock().unwrap().push(TicketInfo {
@@ -211,6 +212,39 @@ impl Driver {
 				if let Some(tx) = &self.single_tx {
 					tx.send((id, ticket.clone())).ok();
 				}
+			}
+			Waiters::PollThenClone => {
+				let world = self.world.clone();
+				let tickets = self.tickets.clone();
+				let mut first = ticket.clone();
+				self.handles.push(tokio::spawn(async move {
+					let record = |slot: usize, world: &Arc<World>, tickets: &Arc<Mutex<Vec<TicketInfo>>>| {
+						let now = world.now();
+						world.log(Ev::Done { id, waiter: slot });
+						if let Some(ti) = tickets.lock().unwrap().get_mut(id) {
+							ti.done[slot] = Some(now);
+						}
+					};
+					// one poll while (possibly) pending registers this task's waker, then the clone is made
+					if futures::poll!(&mut first).is_ready() {
+						record(0, &world, &tickets);
+						record(1, &world, &tickets);
+						return;
+					}
+					let second = first.clone();
+					let (w2, t2) = (world.clone(), tickets.clone());
+					let other = tokio::spawn(async move {
+						second.await;
+						let now = w2.now();
+						w2.log(Ev::Done { id, waiter: 1 });
+						if let Some(ti) = t2.lock().unwrap().get_mut(id) {
+							ti.done[1] = Some(now);
+						}
+					});
+					first.await;
+					record(0, &world, &tickets);
+					other.await.ok();
+				}));
 			}
 			Waiters::Late => {
 				if ending {
